@@ -11,16 +11,28 @@ import (
 type SExpr interface{}
 
 type (
-	SIdent  struct{ Name string }
-	SNum    struct{ V string }
-	SStr    struct{ V string }
-	SBin    struct{ Op string; L, R SExpr }
-	SUn     struct{ Op string; X SExpr }
-	SSel    struct{ X SExpr; Name string }
-	SIndex  struct{ X, I SExpr }
-	SSlice  struct{ X, Lo, Hi SExpr }
-	SCall   struct{ Fn SExpr; Args []SExpr }
-	SQuant  struct {
+	SIdent struct{ Name string }
+	SNum   struct{ V string }
+	SStr   struct{ V string }
+	SBin   struct {
+		Op   string
+		L, R SExpr
+	}
+	SUn struct {
+		Op string
+		X  SExpr
+	}
+	SSel struct {
+		X    SExpr
+		Name string
+	}
+	SIndex struct{ X, I SExpr }
+	SSlice struct{ X, Lo, Hi SExpr }
+	SCall  struct {
+		Fn   SExpr
+		Args []SExpr
+	}
+	SQuant struct {
 		Forall bool
 		Vars   []SParam
 		Body   SExpr
@@ -28,7 +40,7 @@ type (
 	}
 	SOld   struct{ X SExpr }
 	SCond  struct{ C, A, B SExpr } // c ? a : b
-	SStar  struct{ X SExpr }      // pattern p.* / s[*]
+	SStar  struct{ X SExpr }       // pattern p.* / s[*]
 	SParam struct{ Name, Type string }
 )
 
@@ -331,6 +343,10 @@ func (p *sparser) unary() SExpr {
 	if p.isOp("-") {
 		p.next()
 		return &SUn{"-", p.unary()}
+	}
+	if p.isOp("*") {
+		p.next()
+		return &SUn{"*", p.unary()}
 	}
 	return p.postfix()
 }
